@@ -63,7 +63,8 @@ OPTION_FRAGMENTS = [
     {'output.formatSkip': [], 'output.formatForce': ['div']},
     {'inlineElements': []},
 ]
-CONTEXTS = [None, None, None, {'name': 'ul'}, {'name': 'span'}, {'name': 'TABLE'}, {'name': ''}, {'name': 'x', 'attributes': {'a': 'b'}}]
+CONTEXTS = [None, None, None, {'name': 'ul'}, {'name': 'span'}, {'name': 'TABLE'}, {'name': ''}, {'name': 'x', 'attributes': {'a': 'b'}},
+            {'name': 'div', 'attributes': {'class': 'blk blk_m'}}, {'attributes': {'class': 'b'}}, {}]
 MAX_REPEATS = [None, None, None, 0, 1, 2, 5, 1000]
 USER_SNIPPETS = [
     None, None, None,
@@ -434,6 +435,14 @@ def gen(ctx):
         for n in (1, 2):
             for tup in itertools.product(ALPHABET, repeat=n):
                 cs.add(''.join(tup), cfg, 'exhaustive2:options')
+    # BEM (not in the Coq model: implementation oracle only): every string over a class-name alphabet
+    bem_alpha = list('a.-_>+^*2$')
+    bem_cfgs = [{'options': {'bem.enabled': True}},
+                {'options': {'bem.enabled': True}, 'context': {'name': 'div', 'attributes': {'class': 'blk'}}, 'text': ['x', 'y']}]
+    for n in range(1, (3 if quick else 5) + 1):
+        for tup in itertools.product(bem_alpha, repeat=n):
+            for cfg in (bem_cfgs if n <= 4 else bem_cfgs[:1]):
+                cs.add(''.join(tup), cfg, 'exhaustive-bem')
     # (2) valid abbreviations under every syntax + a few option sets
     names = g.safe_names()
     for s in SYNTAXES:
